@@ -832,7 +832,7 @@ fn uom_section(rep: &mut Report, run: &mut Runner, opts: &Opts, rng: &mut Rng) {
         }
     }
     // laws on the implementation's own outputs: inverse and transitivity over random magnitudes
-    let n = if opts.thorough { 60_000 } else { 6_000 };
+    let n = if opts.thorough { 150_000 } else { 6_000 };
     for _ in 0..n {
         let a = &us[rng.below(us.len())];
         let same: Vec<&UnitSpec> = us.iter().filter(|u| u.cat == a.cat).collect();
@@ -979,7 +979,7 @@ pub fn run(opts: &Opts) -> Report {
         }
     }
     // 3. every IANA name x instants
-    let per_zone = if th { 16 } else { 2 };
+    let per_zone = if th { 40 } else { 2 };
     for z in all_zones.iter() {
         for k in 0..per_zone {
             let n = if k == 0 { 1_704_877_065_123_000_000i128 } else { random_instant(&mut rng) };
@@ -987,7 +987,7 @@ pub fn run(opts: &Opts) -> Report {
         }
     }
     // 4. random instants x (zone-less, UTC, random zone)
-    let n_rand = if th { 60_000 } else { 2_500 };
+    let n_rand = if th { 200_000 } else { 2_500 };
     for _ in 0..n_rand {
         let n = random_instant(&mut rng);
         st.check_accessors(n, None, "random");
@@ -1075,7 +1075,7 @@ pub fn run(opts: &Opts) -> Report {
             st.check_dur_pair(*a, *b);
         }
     }
-    let n_ar = if th { 40_000 } else { 2_500 };
+    let n_ar = if th { 120_000 } else { 2_500 };
     for _ in 0..n_ar {
         let (t, t2) = (random_instant(&mut rng), random_instant(&mut rng));
         let (d, d2) = (random_duration(&mut rng), random_duration(&mut rng));
@@ -1095,7 +1095,7 @@ pub fn run(opts: &Opts) -> Report {
     for d in dpool.iter() {
         st.check_dur_accessors(*d);
     }
-    for _ in 0..(if th { 40_000 } else { 3_000 }) {
+    for _ in 0..(if th { 150_000 } else { 3_000 }) {
         let d = random_duration(&mut rng);
         st.check_dur_accessors(d);
     }
